@@ -2,6 +2,7 @@
 From Coq Require Extraction.
 From Coq Require Import ExtrOcamlBasic.
 From Flatcc.Reset Require Import BuilderState.
+From Flatcc.Generated Require Import ResetConsts.
 Extraction Language OCaml.
 Extraction "../ocaml/reset/model.ml" step st_init cap_get caps_total all_kinds kind_index
-  set_fa set_fa_rep set_fe set_fe_rep set_caps caps0 set_ds_limit set_limit_level.
+  set_fa set_fa_rep set_fe set_fe_rep set_caps caps0 set_ds_limit set_limit_level PAGE_SIZE.
